@@ -75,11 +75,15 @@ pub struct Cfg {
     /// simulated number of CPUs the machine reports (S6): 0 = reference (1 CPU)
     #[serde(default)]
     pub cpus: usize,
+    /// placement of the simulated threads' stacks (S8): 0 = reference (thread t in slot t, no
+    /// start offset); otherwise the seed of the slot permutation and the start offsets
+    #[serde(default)]
+    pub stack_seed: u64,
 }
 
 impl Cfg {
     pub fn reference() -> Cfg {
-        Cfg { workers: 1, strategy: "sequential".into(), sched_seed: 0, hash_seed: 0, addr_seed: None, prefix: vec![], from_worker: false, decisions: None, repeat: false, callers: 1, callers_other: false, inplace: false, clock_seed: 0, cpus: 0 }
+        Cfg { workers: 1, strategy: "sequential".into(), sched_seed: 0, hash_seed: 0, addr_seed: None, prefix: vec![], from_worker: false, decisions: None, repeat: false, callers: 1, callers_other: false, inplace: false, clock_seed: 0, cpus: 0, stack_seed: 0 }
     }
 }
 
@@ -159,12 +163,14 @@ pub fn run_one(sc: &Scenario, op: &'static OpDef, input: &Input, prefix_inputs: 
     seams::set_hash_seed(cfg.hash_seed);
     seams::begin_run(cfg.addr_seed);
     seams::begin_env(cfg.clock_seed, cfg.cpus);
+    seams::set_stack_seed(cfg.stack_seed);
     let scfg = sim::Config {
         workers: cfg.workers,
         strategy: strategy_of(&cfg.strategy),
         seed: cfg.sched_seed,
         replay: cfg.decisions.clone(),
         thread_start: Some(seams::mark_sim_thread),
+        thread_wrap: Some(seams::on_sim_stack),
         stack: 16 << 20,
         ..sim::Config::default()
     };
@@ -428,6 +434,7 @@ pub fn gen_cfg(seed: u64, v: u64) -> Cfg {
         inplace: rng.chance(1, 6),
         clock_seed: if rng.chance(1, 2) { rng.next_u64() | 1 } else { 0 },
         cpus: if rng.chance(1, 2) { *rng.pick(&[1usize, 2, 3, 4, 6, 8, 12, 16, 24, 32, 64, 128]) } else { 0 },
+        stack_seed: if rng.chance(2, 3) { rng.next_u64() | 1 } else { 0 },
     }
 }
 
@@ -552,6 +559,7 @@ fn minimise(sc: &Scenario, cfg: &Cfg) -> Option<Minimised> {
     try_reset("inplace", &|c| c.inplace = false, &mut cfg);
     try_reset("clock", &|c| c.clock_seed = 0, &mut cfg);
     try_reset("cpus", &|c| c.cpus = 0, &mut cfg);
+    try_reset("stack", &|c| c.stack_seed = 0, &mut cfg);
     try_reset("addr", &|c| c.addr_seed = None, &mut cfg);
     try_reset("hash", &|c| c.hash_seed = 0, &mut cfg);
     try_reset(
@@ -589,6 +597,9 @@ fn minimise(sc: &Scenario, cfg: &Cfg) -> Option<Minimised> {
     }
     if cfg.cpus != 0 {
         needed.push("cpus");
+    }
+    if cfg.stack_seed != 0 {
+        needed.push("stack");
     }
     if cfg.addr_seed.is_some() {
         needed.push("addr");
@@ -737,6 +748,10 @@ fn account(t: &mut Tot, sc: &Scenario, cfg: &Cfg, info: &RunInfo) {
     if cfg.cpus > 1 {
         t.add("runs_with_cpu_count_variant", 1);
     }
+    if cfg.stack_seed != 0 {
+        t.add("runs_with_stack_placement_variant", 1);
+    }
+    t.max("fixed_area_relocated", seams::stack_stats().1 + seams::arena_relocated());
     t.max("arena_abandoned_bytes", info.alloc.abandoned_bytes);
     t.max("arena_exhausted", info.alloc.exhausted);
     t.max("max_decisions_in_a_run", s.steps);
